@@ -19,7 +19,7 @@ type Term struct {
 	Op   string // recv param free global const zero field call extract tuple binop not neg conv index lookup slice len assert alloc make closure range phi clobbered unknown
 	Name string
 	Args []*Term
-	ID   string   // identity of the producing instruction (calls, allocs); not printed by String
+	ID   string // identity of the producing instruction (calls, allocs); not printed by String
 	Typ  types.Type
 	Val  ssa.Value // originating SSA value when there is one
 }
